@@ -197,6 +197,234 @@ def _mk_value(rng):
 	return v
 
 
+# ---------------------------------------------------------------------------------------------------------------------
+# wave-3 strengthening: input CLASSES (statefulness, Unicode forms, lengths at limits, registry names in several letter
+# cases, degenerate values, independent re-encoding of the field)
+UNI = ['\u0065\u0301', '\u00e9', '\u212b', '\u00c5', '\u0041\u030a', '\u2126', '\u03a9', '\u212a', '\u004b', '\u1100\u1161\u11a8', '\uac01', '\uf900',
+	'\u8c48', '\ufa10', '\u585a', '\U0001f600', '\U00020000', '\U0010ffff', '\ufb01', '\u00df', '\u1e9e', '\u01c6', '\u0130', '\u0131', '\ufeff',
+	'\u00a0', '\u0085', '\u2028', '\u200b', '\u00ad', '\uff21', '\u3000', '\u0344', '\u0308\u0301', '\u1e69', '\u0073\u0323\u0307', '\u0073\u0307\u0323']
+LIMITS = [11, 12, 75, 76, 255, 256, 1023, 1024, 4095, 4096, 8190, 8191, 8192]
+BIG_LIMITS = [65535, 65536]
+TEXT_POS = ['username', 'realm', 'password', 'nonce', 'cnonce', 'uri', 'opaque', 'entity_body', 'method']
+LEN_POS = ['username', 'realm', 'password', 'nonce', 'cnonce', 'nc', 'uri', 'opaque', 'entity_body', 'method']
+# degenerate values: empty, blanks only, separators only, doubled separators, unbalanced quotes (the ones with , " \ or =? fall under D23 / D16)
+DEGENERATE = [b'', b' ', b'  ', b' a', b'a ', b' a ', b'a  b', b':', b'::', b':::', b'a::b', b':a:', b'=', b'==', b'a=b', b'=a', b';', b';;', b'a;b', b'/', b'//',
+	b'?', b'*', b'%', b'%2c', b'%22', b"'", b"''", b"'a", b'(', b')', b'<>', b'@', b'[]', b'{}', b'0', b'00000000', b'auth', b'MD5', b'realm', b'username=x',
+	b'\x00', b'\x7f', b'\xff', b'a\tb', b'a\x0bb', b',', b',,', b'a,b', b'"', b'""', b'"a', b'a"', b'\\', b'\\\\', b'a\\"b']
+# A value whose first or last octet is HTAB, LF, VT, FF or CR is emitted unquoted (these are no TSPECIALS) and comes back stripped
+# (DigestAuthScheme.parse: value.strip()): a defect of the unchanged tree against 'survives composing and parsing', reported by the
+# wave-3 strengthening and excluded from the NEW generators below (the Coq theorems carry it as a hypothesis of tuple_ok).
+EDGE_WS = b'\t\n\x0b\x0c\r'
+
+
+def _registries():
+	from httoop.authentication import AuthRequestElement
+	from httoop.authentication.digest import DigestAuthRequestScheme
+	from httoop.header.element import HEADER
+	hdrs = sorted(k for k, v in HEADER.items() if isinstance(v, type) and issubclass(v, AuthRequestElement))
+	names = set()
+	for k in hdrs:
+		names.update(n for n, sc in HEADER[k].schemes.items() if sc is DigestAuthRequestScheme)
+	return hdrs, sorted(names), sorted(DigestAuthRequestScheme.algorithms), [bytes(q) for q in DigestAuthRequestScheme.qops]
+
+
+def _spellings(name):
+	outs = ['']
+	for ch in name:
+		outs = [o + x for o in outs for x in sorted({ch.lower(), ch.upper()})]
+	return outs
+
+
+def _anycase(rng, name):
+	return ''.join(rng.choice([ch.lower(), ch.upper()]) for ch in name)
+
+
+def _full_tuple(rng, qop, alg, kind='safe'):
+	"""a tuple in which every one of the nine values of the property is present (a server knows all of them)"""
+	t = _tuple(rng, qop, alg, kind)
+	for f in ('cnonce', 'nc'):
+		if f not in t:
+			t[f] = _val(rng, 'token', 1, 8)
+	return t
+
+
+def _utext(rng):
+	return ''.join(rng.choice(UNI) if rng.random() < 0.75 else rng.choice(['a', 'Z', ' ', ':', '9', '/']) for _ in range(rng.randint(1, 4)))
+
+
+def _gen_e2e_classes(rng, tier, hdrs, schemes):
+	big = tier == 'thorough'
+	m = 10 if big else 1
+	cases = []
+	combos = [(q, a) for q in QOPS for a in ALGS]
+	# verification against a server-side tuple that is complete and independent of the received field
+	for qop, alg in combos:
+		for _ in range(12 * m):
+			cases.append({'k': 'e2e', 'hdr': rng.choice(hdrs), 'full': 1, 'cc': 1, 'd': _hexd(_full_tuple(rng, qop, alg))})
+	# (4) every spelling of the scheme name in the registry, every header of the registry
+	for i, sp in enumerate(schemes):
+		qop, alg = combos[i % 9]
+		cases.append({'k': 'e2e', 'hdr': hdrs[i % len(hdrs)], 'scheme': sp, 'd': _hexd(_full_tuple(rng, qop, alg, 'token'))})
+	# (2) normalisation forms and look-alikes as text in every text position
+	for i, piece in enumerate(UNI):
+		for j, pos in enumerate(TEXT_POS):
+			if not big and (i + j) % 3:
+				continue
+			qop, alg = combos[(i + j) % 9]
+			t = _full_tuple(rng, qop, alg, 'token')
+			t.setdefault('opaque', b'o')
+			text = {pos: rng.choice([piece, 'a' + piece, piece + piece, piece + ' b'])}
+			t[pos] = text[pos].encode('utf-8')
+			cases.append({'k': 'e2e', 'hdr': rng.choice(hdrs), 'full': 1, 'd': _hexd(t), 'text': text})
+	for _ in range(60 * m):
+		qop, alg = rng.choice(combos)
+		t = _full_tuple(rng, qop, alg, 'token')
+		text = {}
+		for pos in rng.sample(TEXT_POS, rng.randint(2, 5)):
+			if pos in t:
+				text[pos] = _utext(rng)
+				t[pos] = text[pos].encode('utf-8')
+		cases.append({'k': 'e2e', 'hdr': rng.choice(hdrs), 'd': _hexd(t), 'text': text})
+	# (3) lengths at and around limits in every position that has a length
+	for j, pos in enumerate(LEN_POS):
+		for i, n in enumerate(LIMITS + (BIG_LIMITS if big or pos in ('password', 'entity_body', 'uri') else [])):
+			qop, alg = combos[(i + j) % 9]
+			t = _full_tuple(rng, qop, alg, 'token')
+			t.setdefault('opaque', b'o')
+			t[pos] = _val(rng, 'token' if rng.random() < 0.5 else 'safe', n, n)
+			cases.append({'k': 'e2e', 'hdr': rng.choice(hdrs), 'd': _hexd(t)})
+	# (5) degenerate values in every position
+	for j, pos in enumerate(LEN_POS):
+		for i, v in enumerate(DEGENERATE):
+			if pos == 'nonce' and (v.strip(b'"') == b'' or b'"' in v):
+				continue  # an empty nonce is replaced by a fresh one, '"' is removed from it (parameter of the model, see ASSUMPTIONS)
+			if not big and (i + j) % 2:
+				continue
+			qop, alg = combos[(i + j) % 9]
+			t = _full_tuple(rng, qop, alg, 'token')
+			t.setdefault('opaque', b'o')
+			t[pos] = v
+			cases.append({'k': 'e2e', 'hdr': rng.choice(hdrs), 'full': 1, 'd': _hexd(t)})
+	return cases
+
+
+SEQ_NEW = ['new', 'new_bud', 'create']
+SEQ_MOD = ['item', 'item_b', 'update', 'replace', 'clear', 'popset', 'delset', 'item_text', 'attr_u', 'value', 'none', 'twin']
+SEQ_MODES = ['bytes', 'compose', 'str', 'hdr', 'hdr_fresh', 'scheme', 'calc']
+HASHED = ['nc', 'nc', 'nc', 'uri', 'method', 'entity_body', 'password', 'username', 'realm', 'nonce', 'cnonce', 'qop', 'algorithm', 'opaque']
+
+
+def _seq_change(rng, cur, way):
+	"""the fields a client changes between two requests of one session: {field: new value | None (removed)}"""
+	if way in ('none', 'value', 'twin'):
+		return {}
+	if way == 'attr_u':
+		return {'username': _val(rng, 'token', 0, 6)}
+	chg = {}
+	for f in rng.sample(HASHED, rng.choice([1, 1, 1, 2, 3])):
+		if f == 'qop':
+			chg[f] = rng.choice([q for q in QOPS if q != cur.get('qop')])
+		elif f == 'algorithm':
+			chg[f] = rng.choice([a for a in ALGS if a != cur.get('algorithm')])
+		elif f == 'nc':
+			chg[f] = b'%08x' % rng.randint(1, 300)
+		elif f == 'opaque' and rng.random() < 0.3:
+			chg[f] = None
+		else:
+			chg[f] = _val(rng, rng.choice(['token', 'safe']), 1 if f == 'nonce' else 0, 10)
+	if way == 'item_text':
+		chg = {f: v for f, v in chg.items() if v is not None}
+		for f in list(chg):
+			if f in TEXT_POS and rng.random() < 0.7:
+				chg[f] = _utext(rng).encode('utf-8')
+	for f, v in list(chg.items()):
+		if cur.get(f) == v:
+			del chg[f]
+	return chg
+
+
+def _gen_seq(rng, hdrs, schemes, count):
+	cases = []
+	combos = [(q, a) for q in QOPS for a in ALGS]
+
+	def one(plan, only=None):
+		qop, alg = rng.choice(combos) if only is None else (b'auth-int', b'MD5-sess')
+		first = _full_tuple(rng, qop, alg, rng.choice(['token', 'safe']))
+		cur = {0: dict(first)}
+		steps = [{'e': 0, 'set': rng.choice(SEQ_NEW), 'scheme': rng.choice(schemes), 'chg': _hexd(first), 'mode': plan[0][1]}]
+		for way, mode in plan[1:]:
+			e = 0
+			st = {'set': way, 'mode': mode}
+			if way == 'twin':  # a second element built from the first one's parameter mapping; then the first one changes
+				cur[1] = dict(cur[0])
+				steps.append({'e': 1, 'set': 'twin', 'scheme': rng.choice(schemes), 'chg': {}, 'mode': mode})
+				chg = _seq_change(rng, cur[0], 'item')
+				steps.append({'e': 0, 'set': rng.choice(['item', 'update', 'clear']), 'chg': _hexd(chg), 'mode': mode})
+				for f, v in chg.items():
+					cur[0].pop(f, None) if v is None else cur[0].__setitem__(f, v)
+				steps.append({'e': 1, 'set': 'none', 'chg': {}, 'mode': mode})
+				continue
+			chg = _seq_change(rng, cur[e], way)
+			if only is not None:
+				chg = {only: {'qop': b'auth', 'algorithm': b'MD5', 'nc': b'0000000b'}.get(only, cur[e].get(only, b'') + b'2')}
+			st['e'] = e
+			st['chg'] = _hexd(chg)
+			if way == 'value':
+				st['scheme'] = rng.choice(schemes)
+			if way == 'item_text':
+				st['textkeys'] = sorted(chg)
+			for f, v in chg.items():
+				cur[e].pop(f, None) if v is None else cur[e].__setitem__(f, v)
+			steps.append(st)
+		cases.append({'k': 'seq', 'hdr': rng.choice(hdrs), 'steps': steps})
+	for way in SEQ_MOD:  # every way of changing x every way of composing, on an element that was composed before
+		for mode in SEQ_MODES:
+			one([(None, mode if rng.random() < 0.7 else rng.choice(SEQ_MODES)), (way, mode)])
+	for f in sorted(set(HASHED)):  # every field changed alone (all of them are hashed under auth-int / MD5-sess), element composed before and after
+		for way in ('item', 'update'):
+			one([(None, 'bytes'), (way, 'bytes')], f)
+	for _ in range(count):
+		one([(None, rng.choice(SEQ_MODES))] + [(rng.choice(SEQ_MOD), rng.choice(SEQ_MODES)) for _ in range(rng.randint(1, 4))])
+	return cases
+
+
+def _gen_reenc(rng, hdrs, schemes, count):
+	cases = []
+	combos = [(q, a) for q in QOPS for a in ALGS]
+	seps = [b', ', b',', b' , ', b',\t', b', \t', b',\r\n ', b',\r\n\t', b' ,\r\n  ', b',,', b', ,']
+	for i in range(count):
+		qop, alg = combos[i % 9]
+		t = _full_tuple(rng, qop, alg, rng.choice(['token', 'safe']))
+		hdr = rng.choice(hdrs)
+		cases.append({'k': 'reenc', 'hdr': hdr, 'd': _hexd(t), 'name': _anycase(rng, hdr), 'lookup': _anycase(rng, hdr), 'wscheme': _anycase(rng, rng.choice(schemes)),
+			'order': rng.random(), 'quote': rng.choice(['all', 'all', 'min', 'rfc', 'mixed']), 'seed': rng.randrange(1 << 30),
+			'sep': rng.choice(seps).hex(), 'sp': rng.choice([b' ', b' ', b'  ', b' \r\n ', b'\r\n  ']).hex(), 'bws': rng.random() < 0.2,
+			'ows1': rng.choice([b' ', b'', b'\t', b'  ']).hex(), 'ows2': rng.choice([b'', b' ', b'\t', b', ', b',']).hex(),
+			'before': [rng.choice([b'Host: h', b'X-A: Digest username="x"', b'Accept: */*']).hex() for _ in range(rng.randint(0, 2))],
+			'after': [rng.choice([b'Host: h', b'X-Nonce: n', b'Cookie: nonce=1']).hex() for _ in range(rng.randint(0, 1))]})
+	return cases
+
+
+def _gen_classes(rng, tier):
+	big = tier == 'thorough'
+	hdrs, names, algs, qops = _registries()
+	assert {'Authorization', 'Proxy-Authorization'} <= set(hdrs) and 'digest' in names, (hdrs, names)
+	schemes = [sp for n in names for sp in _spellings(n)]
+	cases = _gen_e2e_classes(rng, tier, hdrs, schemes)
+	cases.extend(_gen_seq(rng, hdrs, schemes, 2500 if big else 180))
+	cases.extend(_gen_reenc(rng, hdrs, schemes, 3000 if big else 300))
+	# (4) every algorithm and qop name of the tables in several letter cases: correspondence only (the property covers MD5, MD5-sess x absent, auth, auth-int)
+	for name in algs:
+		for sp in [name, name.lower(), name.upper(), name.swapcase(), _anycase(rng, name)]:
+			for q in [None] + qops + [q.upper() for q in qops] + [q.title() for q in qops]:
+				t = _full_tuple(rng, None, None, 'token')
+				t['algorithm'] = sp.encode('ascii')
+				if q is not None:
+					t['qop'] = q
+				cases.append({'k': rng.choice(['calc', 'a1', 'a2', 'scompose']), 'd': _hexd(t)})
+	return cases
+
+
 def gen_cases(rng, tier):
 	cases = []
 	big = tier == 'thorough'
@@ -241,6 +469,7 @@ def gen_cases(rng, tier):
 		cases.append({'k': 'fmt', 'key': b'k'.hex(), 'v': '%02x' % c})
 	for _ in range(300 * m):
 		cases.append({'k': 'fmt', 'key': _val(rng, 'token', 1, 6).hex(), 'v': _val(rng, rng.choice(['token', 'safe', 'd23', 'wild']), 0, 10).hex()})
+	cases.extend(_gen_classes(rng, tier))
 	return cases
 
 
@@ -296,6 +525,293 @@ class _Rec(object):
 		o['tbl'] = tbl
 		o['fresh'] = None if self.fresh is None else self.fresh.hex()
 		return o
+
+
+SERVER_FIELDS = ['username', 'realm', 'password', 'nonce', 'nc', 'cnonce', 'qop', 'method', 'uri', 'entity_body', 'algorithm']
+
+
+def _server_runs(d, parsed, record):
+	"""verification against the tuple the SERVER holds (complete, independent of the received field): accepted exactly when the RFC
+	computation on the server's tuple gives the presented response.  The server's tuple differs from the client's in one value at a
+	time, the quality of protection and the algorithm included; then ONE server-side mapping is used for a series of verifications
+	and changed in between."""
+	from httoop.authentication.digest import DigestAuthRequestScheme as DS
+	from httoop.util import ByteUnicodeDict
+	base = {f: _h(d[f]) for f in SERVER_FIELDS if d.get(f) is not None}
+	rp = dict(parsed)
+	rph = [[kk.encode('latin1').hex(), vv.hex()] for kk, vv in rp.items()]
+	runs = []
+
+	def run(name, info, mapping=None, rec=False):
+		r = {'name': name, 'info': {kk: vv.hex() for kk, vv in info.items()}, 'rp': {kk: vv.hex() for kk, vv in rp.items()}}
+		m = ByteUnicodeDict(info) if mapping is None else mapping
+		if rec:
+			with _Rec() as rc:
+				r['res'] = _call(lambda: bool(DS.check(m, ByteUnicodeDict(rp))))
+				rc.done(r)
+			r['rpl'] = rph
+		else:
+			r['res'] = _call(lambda: bool(DS.check(m, ByteUnicodeDict(rp))))
+		runs.append(r)
+
+	def variants(f):
+		if f == 'qop':
+			return [q for q in QOPS if q != base.get('qop')]
+		if f == 'algorithm':
+			return [a for a in ALGS if a != base.get('algorithm')]
+		if f not in base:
+			return []
+		return [base[f] + b'x']
+
+	run('srv:same', base, None, record)
+	for f in SERVER_FIELDS:
+		for i, v in enumerate(variants(f)):
+			info = dict(base)
+			if v is None:
+				info.pop(f, None)
+			else:
+				info[f] = v
+			run('srv:%s=%s' % (f, 'absent' if v is None else v[-12:].hex()), info, None, record and f in ('qop', 'algorithm'))
+	# one mapping object for the whole session
+	srv = ByteUnicodeDict(base)
+	cur = dict(base)
+	run('reuse:first', cur, srv)
+	for f in SERVER_FIELDS:
+		for v in variants(f)[:1]:
+			if v is None:
+				srv.pop(f, None)
+				cur.pop(f, None)
+			else:
+				srv[f] = v
+				cur[f] = v
+			run('reuse:%s:changed' % f, cur, srv)
+			if f in base:
+				srv[f] = base[f]
+				cur[f] = base[f]
+			else:
+				del srv[f]
+				del cur[f]
+			run('reuse:%s:restored' % f, cur, srv)
+	return runs
+
+
+def _apply_chg(cur, chg):
+	for f, v in chg.items():
+		if v is None:
+			cur.pop(f, None)
+		else:
+			cur[f] = _h(v)
+
+
+def _seq_sim(steps):
+	"""independent bookkeeping of the data the CALLER gave to each element: [(element index, scheme, data)] after every step"""
+	cur, sch, out = {}, {}, []
+	for s in steps:
+		e, way = s['e'], s['set']
+		if way in SEQ_NEW:
+			cur[e], sch[e] = {}, s['scheme']
+			_apply_chg(cur[e], s['chg'])
+		elif way == 'twin':
+			cur[e], sch[e] = dict(cur[1 - e]), s['scheme']
+		else:
+			_apply_chg(cur[e], s['chg'])
+			if way == 'value':
+				sch[e] = s['scheme']
+		out.append((e, sch[e], dict(cur[e])))
+	return out
+
+
+def _seq_set(cls, hdr, elems, s, after):
+	from httoop import Headers
+	from httoop.util import ByteUnicodeDict
+	e, way = s['e'], s['set']
+	chg = {f: _h(v) for f, v in s['chg'].items()}
+	if way == 'new':
+		elems[e] = cls(s['scheme'], dict(chg))
+		return
+	if way == 'new_bud':
+		elems[e] = cls(s['scheme'], ByteUnicodeDict(chg))
+		return
+	if way == 'create':
+		elems[e] = Headers().create_element(hdr, s['scheme'], {f.encode('ascii'): v for f, v in chg.items()})
+		return
+	if way == 'twin':
+		elems[e] = cls(s['scheme'], elems[1 - e].params)
+		return
+	el = elems[e]
+	if way == 'item':
+		for f, v in chg.items():
+			if v is None:
+				del el.params[f]
+			else:
+				el.params[f] = v
+	elif way == 'item_b':
+		for f, v in chg.items():
+			if v is None:
+				del el.params[f.encode('ascii')]
+			else:
+				el.params[f.encode('ascii')] = v
+	elif way == 'update':
+		el.params.update({f: v for f, v in chg.items() if v is not None})
+		for f, v in chg.items():
+			if v is None:
+				el.params.pop(f)
+	elif way == 'replace':
+		el.params = ByteUnicodeDict(after)
+	elif way == 'clear':
+		el.params.clear()
+		el.params.update(after)
+	elif way == 'popset':
+		for f, v in chg.items():
+			el.params.pop(f, None)
+			if v is not None:
+				el.params.setdefault(f, v)
+	elif way == 'delset':
+		for f, v in chg.items():
+			if f in el.params:
+				del el.params[f]
+			if v is not None:
+				el.params[f.encode('ascii')] = v
+	elif way == 'item_text':  # text stored after construction, then the public sanitize() (what the constructor runs)
+		for f, v in chg.items():
+			el.params[f] = v.decode('utf-8')
+		el.sanitize()
+	elif way == 'attr_u':
+		el.username = chg['username'].decode('ascii')
+	elif way == 'value':
+		el.value = s['scheme']
+	elif way == 'none':
+		pass
+	else:
+		raise ValueError(way)
+
+
+def _observe_seq(c):
+	from httoop import Headers
+	from httoop.authentication.digest import DigestAuthRequestScheme as DS
+	from httoop.util import ByteUnicodeDict
+	hdr = c['hdr']
+	cls = header_class(hdr)
+	elems = {}
+	hs = Headers()
+	srv = None  # ONE server-side mapping for the session of element 0, changed the way the client's data change
+	prev = None
+	out = []
+	for s, (e, scheme, after) in zip(c['steps'], _seq_sim(c['steps'])):
+		o = {}
+		out.append(o)
+		try:
+			_seq_set(cls, hdr, elems, s, after)
+		except Exception as exc:
+			o['err'], o['stage'] = err_of(exc), 'set'
+			break
+		el = elems[e]
+		mode = s['mode']
+		with _Rec() as rec:
+			try:
+				if mode == 'bytes':
+					field = bytes(el)
+				elif mode == 'compose':
+					field = el.compose()
+				elif mode == 'str':
+					field = str(el).encode('latin-1')
+				elif mode == 'hdr':
+					hs[hdr] = el
+					field = hs.getbytes(hdr)
+				elif mode == 'hdr_fresh':
+					h = Headers()
+					h[hdr.upper()] = el
+					field = h.getbytes(hdr)
+				elif mode == 'scheme':
+					field = b'Digest ' + DS.compose(el.params)
+				elif mode == 'calc':
+					o['calc'] = DS.calculate_request_digest(el.params).hex()
+					field = None
+				else:
+					raise ValueError(mode)
+			except Exception as exc:
+				o['err'], o['stage'] = err_of(exc), 'compose'
+				rec.done(o)
+				continue
+			rec.done(o)
+		if field is None:
+			continue
+		o['field'] = field.hex()
+		try:
+			pe = cls.parse(field)
+			o['back'] = elem_obs(pe)
+			if e == 0:
+				if srv is None:
+					srv = ByteUnicodeDict()
+				for f in list(srv):
+					if f.decode('ascii') not in after:
+						del srv[f]
+				for f, v in after.items():
+					if srv.get(f) != v:
+						srv[f] = v
+				m = srv
+			else:
+				m = ByteUnicodeDict(after)
+			o['check'] = _call(lambda: bool(DS.check(m, pe.params)))
+			if prev is not None and e == 0:
+				o['replay'] = _call(lambda: bool(DS.check(m, prev.params)))
+				o['replayed'] = elem_obs(prev)
+			if e == 0:
+				prev = pe
+		except Exception as exc:
+			o['err'], o['stage'] = err_of(exc), 'parse'
+	return out
+
+
+TSPEC = b' ()<>@,;:\\"/[]?='
+
+
+def _reenc_wire(c, want):
+	"""the field another client would send for the same tuple: parameters in another order, quoted differently, other separators, name and
+	scheme in other letter cases, folded; written independently of HeaderElement.formatparam"""
+	import random
+	d = {kk: _h(vv) for kk, vv in c['d'].items() if vv is not None}
+	rng = random.Random(c['seed'])
+	names = ['username', 'realm', 'nonce', 'uri', 'response', 'algorithm', 'opaque', 'qop'] + (['cnonce', 'nc'] if d.get('qop') else [])
+	vals = dict(d)
+	vals['response'] = want
+	items = [(n, vals[n]) for n in names if n in vals]
+	if c['order'] < 0.7:
+		rng.shuffle(items)
+	atoms = []
+	for n, v in items:
+		plain = bool(v) and all(0x21 <= ch < 0x7f and ch not in TSPEC for ch in v)
+		style = c['quote'] if c['quote'] != 'mixed' else rng.choice(['all', 'min'])
+		if style == 'rfc':
+			style = 'min' if n in ('algorithm', 'qop', 'nc') else 'all'
+		eq = rng.choice([b' = ', b'= ', b' =']) if c['bws'] else b'='
+		atoms.append(n.encode('ascii') + eq + (v if style == 'min' and plain else b'"' + v + b'"'))
+	value = c['wscheme'].encode('ascii') + _h(c['sp']) + _h(c['sep']).join(atoms) + _h(c['ows2'])
+	line = c['name'].encode('ascii') + b':' + _h(c['ows1']) + value
+	return b'\r\n'.join([_h(x) for x in c['before']] + [line] + [_h(x) for x in c['after']])
+
+
+def _observe_reenc(c):
+	from httoop import Headers
+	from httoop.authentication.digest import DigestAuthRequestScheme as DS
+	from httoop.util import ByteUnicodeDict
+	d = {kk: _h(vv) for kk, vv in c['d'].items() if vv is not None}
+	want = rfc2617_response(d, d.get('qop'), d.get('algorithm'))
+	wire = _reenc_wire(c, want)
+	o = {'wire': wire.hex()}
+	try:
+		h = Headers()
+		h.parse(wire)
+		o['stored'] = h.getbytes(c['lookup']).hex()
+		e = h.element(c['lookup'])
+		o['back'] = elem_obs(e)
+		info = {f: d[f] for f in SERVER_FIELDS if f in d}
+		o['check'] = _call(lambda: bool(DS.check(ByteUnicodeDict(info), e.params)))
+		info['password'] = info['password'] + b'x'
+		o['check_wrong'] = _call(lambda: bool(DS.check(ByteUnicodeDict(info), e.params)))
+	except Exception as exc:
+		o['err'], o['stage'] = err_of(exc), 'parse'
+	return o
 
 
 def _bud(d, ap=None):
@@ -354,9 +870,12 @@ def observe(c):
 		cls = header_class(c['hdr'])
 		d = c['d']
 		o = {}
+		params = dict(_bud(d))
+		for f, text in c.get('text', {}).items():  # text (str) values: UTF-8 encoded by AuthElement.sanitize
+			params[f.encode('ascii')] = text
 		with _Rec() as rec:
 			try:
-				field = bytes(cls('Digest', dict(_bud(d))))
+				field = bytes(cls(c.get('scheme', 'Digest'), params))
 			except Exception as exc:
 				return rec.done({'err': err_of(exc), 'stage': 'compose'})
 			rec.done(o)
@@ -413,11 +932,18 @@ def observe(c):
 				if parsed[f]:
 					runs.append(['field:' + f + ':cut', verify({}, {f: parsed[f][:-1]})])
 		o['runs'] = runs
+		o['runs2'] = _server_runs(d, parsed, bool(c.get('cc')))  # cc: these verifications also go through the Coq model (CCheck)
 		return o
+	if k == 'seq':
+		return {'steps': _observe_seq(c)}
+	if k == 'reenc':
+		return _observe_reenc(c)
 	raise ValueError(k)
 
 
 # ---------------------------------------------------------------- Coq literals
+COQ_MAX = 4200
+
 def coq_authinfo(d, ap=None):
 	parts = [oX(d.get(f)) for f in FIELDS]
 	if ap is None:
@@ -449,9 +975,40 @@ def coq_case(c, o):
 	if k == 'compose':
 		return 'CCompose %s %s %s %s %s' % (X(c['scheme'].encode('ascii')), coq_authinfo(c['d']), coq_tbl(o), _fresh(o), coq_res(o, hx))
 	if k == 'e2e':
+		if sum(len(v) for v in c['d'].values() if v) > 2 * COQ_MAX:
+			return None  # the longest values (8190 .. 65536 octets) are oracle-only: a longer literal overflows coqc's stack
+		sch = X(c.get('scheme', 'Digest').encode('ascii'))
 		if 'field' in o:
-			return 'CCompose %s %s %s %s (Ok %s)' % (X(b'Digest'), coq_authinfo(c['d']), coq_tbl(o), _fresh(o), hx(o['field']))
-		return 'CCompose %s %s %s %s (Err %s)' % (X(b'Digest'), coq_authinfo(c['d']), coq_tbl(o), _fresh(o), coq_err(o['err']))
+			out = ['CCompose %s %s %s %s (Ok %s)' % (sch, coq_authinfo(c['d']), coq_tbl(o), _fresh(o), hx(o['field']))]
+			for r in o.get('runs2', []):
+				if 'rpl' in r:
+					out.append('CCheck %s %s %s %s' % (coq_authinfo(r['info']), alist(r['rpl']), coq_tbl(r), coq_res(r['res'], B)))
+			return out
+		return 'CCompose %s %s %s %s (Err %s)' % (sch, coq_authinfo(c['d']), coq_tbl(o), _fresh(o), coq_err(o['err']))
+	if k == 'seq':
+		out = []
+		for s, (e, scheme, after), so in zip(c['steps'], _seq_sim(c['steps']), o['steps']):
+			if so.get('stage') == 'set':
+				continue
+			if s['mode'] == 'calc':
+				if 'calc' in so or so.get('stage') == 'compose':
+					out.append('CCalc %s %s %s' % (coq_authinfo(_hexd(after)), coq_tbl(so), coq_res({'ok': so['calc']} if 'calc' in so else so, hx)))
+				continue
+			if s['mode'] == 'scheme':
+				if 'field' in so:
+					out.append('CSchemeCompose %s %s %s (Ok %s)' % (coq_authinfo(_hexd(after)), coq_tbl(so), _fresh(so), X(_h(so['field'])[7:])))
+				elif so.get('stage') == 'compose':
+					out.append('CSchemeCompose %s %s %s (Err %s)' % (coq_authinfo(_hexd(after)), coq_tbl(so), _fresh(so), coq_err(so['err'])))
+				continue
+			if 'field' in so:
+				out.append('CCompose %s %s %s %s (Ok %s)' % (X(scheme.encode('ascii')), coq_authinfo(_hexd(after)), coq_tbl(so), _fresh(so), hx(so['field'])))
+			elif so.get('stage') == 'compose':
+				out.append('CCompose %s %s %s %s (Err %s)' % (X(scheme.encode('ascii')), coq_authinfo(_hexd(after)), coq_tbl(so), _fresh(so), coq_err(so['err'])))
+		return out or None
+	if k == 'reenc':
+		if 'stored' not in o or b'=?' in _h(o['stored']):
+			return None
+		return 'CParse %s %s' % (hx(o['stored']), coq_pres(o['back'] if 'back' in o else {'err': o['err']}))
 	if k == 'sparse':
 		return 'CSchemeParse %s %s' % (hx(c['info']), coq_res(o, alist))
 	if k == 'parse':
@@ -487,9 +1044,16 @@ def _expected(info):
 def oracle(c, o):
 	if 'harness_exception' in o:
 		return 'unexpected exception in the harness: %s' % (o,)
+	if c['k'] == 'seq':
+		return _oracle_seq(c, o)
+	if c['k'] == 'reenc':
+		return _oracle_reenc(c, o)
 	if c['k'] != 'e2e':
 		return None
 	d = {kk: _h(vv) for kk, vv in c['d'].items() if vv is not None}
+	for f, text in c.get('text', {}).items():
+		if text.encode('utf-8') != d[f]:
+			return 'harness: text and octets of the case differ'
 	qop, alg = d.get('qop'), d.get('algorithm')
 	if 'field' not in o:
 		return 'response: composing raised %s (qop=%r algorithm=%r)' % (o['err'], qop, alg)
@@ -526,6 +1090,100 @@ def oracle(c, o):
 			continue
 		if res != should:
 			return 'verify: check() returned %s for %s, the RFC computation says %s' % (res, name, should)
+	for r in o.get('runs2', []):
+		fail = _judge(r['name'], r['res'], r['info'], r['rp'])
+		if fail:
+			return fail
+	return None
+
+
+def _judge(name, res, info, rp):
+	"""accept exactly when the RFC computation on the server's tuple gives the presented response (and the realms agree)"""
+	exp = _expected(info)
+	same_realm = info.get('realm') == rp.get('realm')
+	if exp is None and same_realm:
+		return None  # the server's tuple is incomplete: any outcome but acceptance is fine (acceptance cannot be judged without a digest)
+	should = exp is not None and same_realm and exp.hex() == rp.get('response')
+	if 'err' in res:
+		if should:
+			return 'verify: check() raised %s for %s' % (res['err'], name)
+		return None
+	if res['ok'] != should:
+		return 'verify: check() returned %s for %s (server holds qop=%s algorithm=%s, field carries qop=%s), the RFC computation on the server\'s tuple says %s' % (
+			res['ok'], name, _txt(info.get('qop')), _txt(info.get('algorithm')), _txt(rp.get('qop')), should)
+	return None
+
+
+def _txt(h):
+	return None if h is None else bytes.fromhex(h).decode('latin1')
+
+
+def _expect_params(d, want):
+	expect = {f: d[f] for f in ('username', 'realm', 'nonce', 'uri', 'algorithm', 'opaque', 'qop') if f in d}
+	if d.get('qop'):
+		expect['cnonce'] = d['cnonce']
+		expect['nc'] = d['nc']
+	expect['response'] = want
+	return expect
+
+
+def _params_of(back):
+	return {_h(kk).decode('latin1'): _h(vv) for kk, vv in back['params']}
+
+
+def _oracle_seq(c, o):
+	prev_resp = None
+	for i, (s, (e, scheme, cur), so) in enumerate(zip(c['steps'], _seq_sim(c['steps']), o['steps'])):
+		what = 'stateful use, step %d (%s %s, %s)' % (i, s['set'], sorted(s['chg']) if i else '', s['mode'])
+		qop, alg = cur.get('qop'), cur.get('algorithm')
+		want = rfc2617_response(cur, qop, alg)
+		if so.get('stage') in ('set', 'compose'):
+			return '%s: %s raised %s' % (what, so['stage'], so['err'])
+		if s['mode'] == 'calc':
+			if _h(so['calc']) != want:
+				return '%s: calculate_request_digest gives %s, the RFC 2617 response of the data now in the mapping is %s' % (what, _h(so['calc']).decode('latin1'), want.decode())
+			continue
+		field = _h(so['field'])
+		if 'err' in so:
+			return '%s: parsing %r raised %s' % (what, field[:200], so['err'])
+		if 'err' in so['back']:
+			return '%s: parsing %r raised %s' % (what, field[:200], so['back']['err'])
+		back, expect = _params_of(so['back']), _expect_params(cur, want)
+		if back != expect:
+			diff = sorted(f for f in set(back) | set(expect) if back.get(f) != expect.get(f))
+			return '%s: a fresh element with the same data gives %r, this one gave %r (qop=%r algorithm=%r): %r' % (what, {f: expect.get(f) for f in diff}, {f: back.get(f) for f in diff}, qop, alg, field[:200])
+		if so['check'] != {'ok': True}:
+			return '%s: verify: check() on the server mapping holding the same data returned %s' % (what, so['check'])
+		if 'replay' in so:
+			old = _params_of(so['replayed'])
+			should = old.get('realm') == cur.get('realm') and old.get('response') == want
+			if 'ok' in so['replay'] and so['replay']['ok'] != should:
+				return '%s: verify: the field of the previous request is %s by the server mapping after the change, the RFC computation says %s' % (what, 'accepted' if so['replay']['ok'] else 'rejected', should)
+			if 'err' in so['replay'] and should:
+				return '%s: verify: check() raised %s' % (what, so['replay']['err'])
+	if len(o['steps']) != len(c['steps']):
+		return 'stateful use: the sequence stopped after step %d' % (len(o['steps']) - 1,)
+	return None
+
+
+def _oracle_reenc(c, o):
+	d = {kk: _h(vv) for kk, vv in c['d'].items() if vv is not None}
+	want = rfc2617_response(d, d.get('qop'), d.get('algorithm'))
+	wire = _h(o['wire'])
+	if 'err' in o:
+		return 're-encoded field: parsing %r raised %s' % (wire[:300], o['err'])
+	if 'err' in o['back']:
+		return 're-encoded field: parsing %r raised %s' % (wire[:300], o['back']['err'])
+	back, expect = _params_of(o['back']), _expect_params(d, want)
+	if back != expect:
+		diff = sorted(f for f in set(back) | set(expect) if back.get(f) != expect.get(f))
+		return 're-encoded field: parameter(s) %s of %r come back as %r instead of %r' % (diff, wire[:300], {f: back.get(f) for f in diff}, {f: expect.get(f) for f in diff})
+	if _h(o['back']['value']).lower() != b'digest':
+		return 're-encoded field: parsed scheme is %r' % (_h(o['back']['value']),)
+	if o['check'] != {'ok': True}:
+		return 're-encoded field: verify: check() with the same password and request data returned %s for %r' % (o['check'], wire[:300])
+	if o['check_wrong'] == {'ok': True}:
+		return 're-encoded field: verify: check() with another password accepted %r' % (wire[:300],)
 	return None
 
 
@@ -535,7 +1193,7 @@ def _vals(c):
 
 def classify(c, o, fail):
 	if c['k'] != 'e2e':
-		return None
+		return None  # the sequence and re-encoding generators stay clear of , " \\ and =? (D23, D16)
 	d = {kk: _h(vv) for kk, vv in c['d'].items() if vv is not None}
 	if fail.startswith('response: composing raised') and d.get('qop') == b'auth-int' and 'algorithm' not in d and o.get('err') == ['EMissing', b'algorithm'.hex()]:
 		return 'D22-digest-auth-int-needs-algorithm'
@@ -551,7 +1209,10 @@ def classify(c, o, fail):
 def nontrivial(c, o):
 	if 'harness_exception' in o:
 		return None
-	return (c['k'], repr(sorted(c.get('d', {}).items())), c.get('info'), c.get('v'), repr(c.get('rp')), c.get('key'), c.get('scheme'), repr(c.get('ap')))
+	if c['k'] in ('seq', 'reenc'):
+		import json
+		return (c['k'], json.dumps(c, sort_keys=True))
+	return (c['k'], repr(sorted(c.get('d', {}).items())), repr(c.get('text')), c.get('info'), c.get('v'), repr(c.get('rp')), c.get('key'), c.get('scheme'), repr(c.get('ap')))
 
 
 LEVEL_TEXT = ('Machine-checked Coq theorems about a Gallina model of DigestAuthRequestScheme with the hash as an arbitrary function: the computed '
